@@ -358,7 +358,10 @@ func (ProgressOracle) AfterCycle(r *Run, cycle int, all []Decision) {
 			within = append(within, g)
 		}
 	}
-	// every queue's pending demand must be entirely within quota, otherwise which workload is served is a matter of order
+	// Either every pending workload is within quota, or the excess held by over-quota queues is large enough to serve
+	// every pending workload (each of them can take at most one victim's worth away: single pods of one shape): otherwise
+	// which workload is served is a matter of order
+	allWithin := true
 	for _, g := range pending {
 		ok := false
 		for _, w := range within {
@@ -367,6 +370,34 @@ func (ProgressOracle) AfterCycle(r *Run, cycle int, all []Decision) {
 			}
 		}
 		if !ok {
+			allWithin = false
+		}
+	}
+	if !allWithin {
+		if float64(len(pending))*float64(shape.GPUs) <= excess+1e-9 {
+			r.Probe("c05_unobstructed_reclaim_judged_with_over_quota_competitors")
+			// inside one queue the quota goes to the pending workloads in the queue's own order: a workload is judged only
+			// if every pending workload of its queue stays within the quota
+			outside := map[string]bool{}
+			for _, g := range pending {
+				in := false
+				for _, w := range within {
+					if w == g {
+						in = true
+					}
+				}
+				if !in {
+					outside[g.Queue] = true
+				}
+			}
+			var keep []*RefGroup
+			for _, w := range within {
+				if !outside[w.Queue] {
+					keep = append(keep, w)
+				}
+			}
+			within = keep
+		} else {
 			within = nil
 		}
 	}
